@@ -94,7 +94,25 @@ def expected_line_col(text: str, index: int):
     return line, col
 
 
-def check_text(text: str, agreement: bool) -> Obs:
+def check_offsets(text, pairs, err, viol):
+    """the documented offsets only move the reported positions: same pairs, or the same error three lines further down"""
+    try:
+        p2, e2 = options_to_items(text, line_offset=3, column_offset=2)[0], None
+    except TokenizeError as exc:
+        p2, e2 = None, exc
+    except Exception as exc:
+        viol.append(violation("totality", {"clause": "totality", "exc": type(exc).__name__, "with_offsets": True},
+                              f"options_to_items(text, line_offset=3, column_offset=2) raised {type(exc).__name__}: {exc}", text=text))
+        return
+    if (p2 is None) != (pairs is None) or (p2 is not None and p2 != pairs):
+        viol.append(violation("error-position", {"clause": "error-position", "kind": "offsets-change-result"},
+                              f"with line/column offsets the result is {p2!r} / {e2!r}, without {pairs!r} / {err!r}", text=text))
+    elif e2 is not None and e2.problem_mark is not None and err.problem_mark is not None and e2.problem_mark.line != err.problem_mark.line + 3:
+        viol.append(violation("error-position", {"clause": "error-position", "kind": "line-offset"},
+                              f"line_offset=3: error line {e2.problem_mark.line}, without offset {err.problem_mark.line}", text=text))
+
+
+def check_text(text: str, agreement: bool, offsets: bool = False) -> Obs:
     viol = []
     stats = {}
     try:
@@ -137,6 +155,8 @@ def check_text(text: str, agreement: bool) -> Obs:
             )
         )
         return Obs(digest=("crash", type(exc).__name__), violations=viol, stats={"crash": 1})
+    if offsets:
+        check_offsets(text, pairs, err, viol)
     if pairs is not None and not all(
         isinstance(k, str) and isinstance(v, str) for k, v in pairs
     ):
@@ -223,7 +243,7 @@ class SliceSystem(System):
                 yield "".join(tup)
 
     def run(self, case):
-        return check_text(case, self.agreement)
+        return check_text(case, self.agreement, offsets=self.name == "slice-A-structure")
 
 
 # ----------------------------------------------------------------------------------------------
